@@ -48,6 +48,13 @@ theorem sumLoop_complete {α} (xs : List α) (f : α → OCtx → Nat × OCtx) (
   obtain ⟨a, b⟩ := key xs (0, c) (fun _ h => h) hc hn
   exact ⟨a, fun h0 => (b h0).2⟩
 
+theorem sumLoop_complete' {α} (xs : List α) (f : α → OCtx → Nat × OCtx) (P : OCtx → Prop) (Q : α → Prop) (R : Prop)
+    (hf : ∀ x ∈ xs, ∀ c, P c → P (f x c).2 ∧ ((f x c).2.crash = none → c.crash = none ∧ ((f x c).1 = 0 → Q x)))
+    (hR : (∀ x ∈ xs, Q x) → R) (c : OCtx) (hc : P c) (hn : (sumLoop xs f c).2.crash = none) :
+    c.crash = none ∧ ((sumLoop xs f c).1 = 0 → R) := by
+  obtain ⟨a, b⟩ := sumLoop_complete xs f P Q hf c hc hn
+  exact ⟨a, fun h0 => hR (b h0)⟩
+
 section
 variable (s : SchemaD) (fx : Fixes) (d : Doc)
 
